@@ -176,6 +176,9 @@ def run_rules(ctx, chk):
         if b.name == 'new' and (b.impl_self or '').endswith('ShmWriter'):
             allowed[b.path] = {'vstore'}
     n_sites = 0
+    seen_sites = set()
+    has_store = {b.path for b in fb.bodies(common.SHM) if b.defkind != 'Closure' and any(
+        fn and (mir.callee_name(fn) in DATA_WRITES or atomic_kind(mir.callee_name(fn)) in ATOMIC_WRITES) for bb, t, fn in common.user_calls(b))}
     for b in fb.bodies(common.SHM):
         if b.defkind == 'Closure':
             continue
@@ -190,19 +193,27 @@ def run_rules(ctx, chk):
         if not has and not direct:
             continue
         chk.saw(b)
-        eng = common.mk_engine(fb, no_inline=lambda x: True)
-        seen = set()
+        # helpers are inlined so that a pointer handed out by one (a `locate_fields`-style function) keeps its
+        # provenance; each store is attributed to the function whose body contains the call site
+        from .startup_model import is_reader_new
+        eng = common.mk_engine(fb, inline_depth=8, no_inline=is_reader_new)
         for p in eng.run(b):
             for e in classify_effects(p):
-                if e.kind in ('gstore', 'vstore', 'astore', 'dwrite') and (e.kind, e.site) not in seen:
-                    seen.add((e.kind, e.site))
+                owner = e.ef['site'][0]
+                if e.kind in ('gstore', 'vstore', 'astore', 'dwrite') and (e.kind, e.site) not in seen_sites:
+                    if owner != b.path and fb.body(owner) is not None and fb.body(owner).defkind != 'Closure' and owner in has_store:
+                        continue        # analysed with its own function as the root
+                    seen_sites.add((e.kind, e.site))
                     n_sites += 1
-                    if e.kind == 'dwrite' and e.field not in ('ceb', 'ceb_shm', 'generation', 'version', 'mapping'):
+                    if e.kind == 'dwrite' and e.field not in ('ceb', 'generation', 'version', 'mapping'):
                         # a write through a pointer that is not one of the mapping pointers (e.g. MaybeUninit buffers)
                         continue
-                    ok = e.kind in allowed.get(b.path, ())
-                    chk.ob('C02.S4', 'mapping-write:%s:%s' % (b.path.split('::')[-1], e.kind), ok, e.site,
-                           '%s writes into the mapping (%s)%s' % (b.path, e.kind, '' if ok else ' -- only write() and ShmWriter::new() may'))
+                    roots = {r for r, kinds in allowed.items() if e.kind in kinds}
+                    fn_owner = owner.split('::{closure')[0]
+                    ok = common.only_reached_from(fb, fn_owner, roots)
+                    chk.ob('C02.S4', 'mapping-write:%s:%s' % (fn_owner.split('::')[-1], e.kind), ok, e.site,
+                           '%s writes into the mapping (%s)%s' % (fn_owner, e.kind, '' if ok else
+                                                                 ' -- only write(), ShmWriter::new() and helpers called from nowhere else may'))
         for i in direct:
             chk.ob('C02.S4', 'raw-place-store:%s' % b.path.split('::')[-1], False, b.where(i), 'direct store through a raw pointer')
     chk.floor('C02.S4', 'mapping write sites', n_sites, 3)
